@@ -275,6 +275,7 @@ def write_raw_file(mon,log_file='paramlog.py',**kwds):
     del kwds['header']
   f.write("inf = float('inf')\n") # define special values
   f.write("nan = float('nan')\n") # define special values
+  f.write("import numpy as np\n") # numpy>=2 prints scalars as np.float64(...)
   for variable,value in kwds.items():
     f.write('%s = %s\n' % (variable,value))# write remaining kwds as variables
   if ids is not None:
